@@ -3,8 +3,6 @@ package fixtures
 import (
 	"fmt"
 	"strings"
-
-	"github.com/alecthomas/participle/v2"
 )
 
 // Ported from /repo/_examples/jsonpath/main.go.
@@ -23,7 +21,7 @@ type jsonpathAcc struct {
 	Index *int    `| @Int`
 }
 
-var jsonpathParser = participle.MustBuild[jsonpathPathExpr]()
+var jsonpathParser = mustBuild[jsonpathPathExpr]()
 
 func init() {
 	f := Register("jsonpath", jsonpathParser, nil,
